@@ -57,7 +57,9 @@ try:
                 names += re.findall(r"^func (Test\w+)\(", src, re.M)
                 pkgdirs.add("./" + sub if sub != "." else ".")
             pat = "^(" + "|".join(names) + ")$"
-            rc, out = run(["go", "test", "-vet=off", "-count=1", "-timeout", "600s", "-run", pat] + sorted(pkgdirs), cwd=tree, timeout=900)
+            race = ["-race"] if any("go test -race" in open(d).read() for d in demos) else []
+            res["demo_race"] = bool(race)
+            rc, out = run(["go", "test"] + race + ["-vet=off", "-count=1", "-timeout", "600s", "-run", pat] + sorted(pkgdirs), cwd=tree, timeout=1200)
             if expect == "fail":
                 demo_ok_fail = rc != 0
                 res["demo_with_patch"] = "FAIL" if rc != 0 else "PASS"
@@ -75,7 +77,7 @@ try:
     fired = {}
     for pid in ids:
         rc, out = run(["/verif/bin/intotocheck", "-property", pid, "-tier", "quick", "-repo", patched, "-no-evidence"])
-        rules = sorted(set(re.findall(r"^  ((?:R-C\d+-\d+|A1|VACUITY \S+)) ", out, re.M)))
+        rules = sorted(set(re.findall(r"^  ((?:R-C\d+-\d+|A\d|VACUITY \S+)) ", out, re.M)))
         lines = [l.strip()[:300] for l in out.splitlines() if l.startswith("  ") and not l.startswith("  [")]
         if rc != 0:
             fired[pid] = {"rules": rules, "reports": lines[:6]}
